@@ -141,6 +141,12 @@ func H_safe_bsdiff() {
 	}
 	ins := rt.Param("ins")
 	N := append(append(append([]byte{}, O[:ins]...), 200, 201), O[ins:]...)
+	if rt.HasParam("swap") {
+		// the two halves swapped: the bsdiff series reads the old file OUT OF ORDER (second half first), through one
+		// reader that seeks backwards
+		h := ns / 2
+		N = append(append([]byte{}, O[h:]...), O[:h]...)
+	}
 	if e := rt.Param("edit"); e >= 0 {
 		N[e] ^= 0x55
 	}
